@@ -85,7 +85,7 @@ def post(check, pairs, stats):
 
 CFG = {
     "id": "C08",
-    "lean_modules": ["GeomV.C08.Proofs", "GeomV.C08.ProofsConic", "GeomV.C08.ProofsTmerc", "GeomV.C08.ProofsGeodetic", "GeomV.C08.ProofsKrovak", "GeomV.C08.ProofsUnique", "GeomV.C08.ProofsConverge", "GeomV.C08.ProofsHelmert", "GeomV.C08.ProofsPipeline", "GeomV.C08.ProofsMore", "GeomV.C08.Ties", "GeomV.C08.TiesCommon", "GeomV.C08.TiesReal", "GeomV.C08.TiesGuards", "GeomV.C08.TiesRoute", "GeomV.C08.TiesAxis"],
+    "lean_modules": ["GeomV.C08.Proofs", "GeomV.C08.ProofsConic", "GeomV.C08.ProofsTmerc", "GeomV.C08.ProofsGeodetic", "GeomV.C08.ProofsKrovak", "GeomV.C08.ProofsUnique", "GeomV.C08.ProofsConverge", "GeomV.C08.ProofsHelmert", "GeomV.C08.ProofsPipeline", "GeomV.C08.ProofsMore", "GeomV.C08.ProofsAea", "GeomV.C08.Ties", "GeomV.C08.TiesCommon", "GeomV.C08.TiesReal", "GeomV.C08.TiesGuards", "GeomV.C08.TiesRoute", "GeomV.C08.TiesAxis"],
     "pregen": pregen,
     "post": post,
     "exe": "geomv_c08",
@@ -116,7 +116,9 @@ CFG = {
         # the route decision of NewTransform (checkNotWGS after fix b165df1: strings.EqualFold)
         "goEqualFold_WGS84_iff", "C08_checkNotWGS_iff", "C08_route_case_insensitive", "C08_route_unfixed_case_sensitive", "C08_route_wkt_direct",
         # wave 2: the footpoint latitude exists (IVT), is unique, and the loop reaches it - no hypothesis about it any more
-        "mlfn_continuous", "mlfn_near_linear", "C08_tmerc_footpoint_exists", "C08_tmerc_footpoint_converges_all"]] + [
+        "mlfn_continuous", "mlfn_near_linear", "C08_tmerc_footpoint_exists", "C08_tmerc_footpoint_converges_all",
+        # wave 5: aeaPhi1z is a monotone Newton iteration (q concave in the latitude for e^2 <= 1/4) with an explicit quadratic remainder
+        "aeaStep_eq", "qD_antitone", "C08_aea_newton_monotone", "C08_aea_newton_quadratic", "C08_aea_straddle"]] + [
         # tie T1: model = definitions regenerated from the current Go source (rfl)
         T + "Ties." + n for n in ["tie_initMerc", "tie_fwdMerc", "tie_invMerc", "tie_initLcc", "tie_fwdLcc", "tie_invLcc",
                                   "tie_initAea", "tie_fwdAea", "tie_invAea", "tie_aeaPhi1zStep", "tie_initEqdc", "tie_fwdEqdc",
@@ -134,7 +136,7 @@ CFG = {
                                   "guard_sign", "guard_adjustLon", "guard_adjustLat", "guard_asinz", "guard_phi2zLoop", "guard_phi2z_cap",
                                   "guard_imlfnLoop", "guard_imlfn_cap", "guard_qsfnz", "guard_fwdMerc", "guard_fwdLcc", "guard_invLcc",
                                   "guard_aeaPhi1zLoop", "guard_aeaPhi1z", "guard_invAea", "guard_invEqdc", "guard_tmercPhiLoop",
-                                  "guard_krovakLatLoop", "guard_geodeticToGeocentric",
+                                  "guard_krovakLatLoop", "guard_geodeticToGeocentric", "guard_initAea", "guard_initLcc", "guard_initEqdc",
                                   # part 5 (TiesRoute): transform.go - checkNotWGS, the closure's route condition, transform3's guards and assignments
                                   "tie_checkNotWGS", "tie_transform", "tie_transform3",
                                   # part 6 (TiesAxis): adjust_axis.go - switch table, loop bound, skip condition, slots, statement count
